@@ -229,8 +229,12 @@ func DoRequestFollowRedirects(ctx context.Context, req *protocol.Request, resp *
 	// cannot be sent to the next location, the caller gets the redirect itself.
 	streamedBody := req.IsBodyStream()
 	for {
-		req.SetRequestURI(url)
-		req.ParseURI()
+		// (url == "": the first hop of DoRedirects, which sends the request as Do would -
+		// re-deriving it from its own string form loses what that form does not carry)
+		if url != "" {
+			req.SetRequestURI(url)
+			req.ParseURI()
+		}
 
 		if err = c.Do(ctx, req, resp); err != nil {
 			break
@@ -250,7 +254,10 @@ func DoRequestFollowRedirects(ctx context.Context, req *protocol.Request, resp *
 			err = errMissingLocation
 			break
 		}
-		url = getRedirectURL(url, location)
+		if url == "" {
+			url = req.URI().String()
+		}
+		url = getRedirectURL(url, location, req.URI().DisablePathNormalizing)
 
 		// Remove the former host header.
 		req.Header.Del(consts.HeaderHost)
@@ -268,10 +275,12 @@ func StatusCodeIsRedirect(statusCode int) bool {
 		statusCode == consts.StatusPermanentRedirect
 }
 
-func getRedirectURL(baseURL string, location []byte) string {
+func getRedirectURL(baseURL string, location []byte, disablePathNormalizing bool) string {
 	u := protocol.AcquireURI()
 	u.Update(baseURL)
 	u.UpdateBytes(location)
+	// (set last: parsing resets it)
+	u.DisablePathNormalizing = disablePathNormalizing
 	redirectURL := u.String()
 	protocol.ReleaseURI(u)
 	return redirectURL
